@@ -211,4 +211,29 @@ theorem gevGrad_eq (xs : Array ℝ) (mu w a : ℝ) (h : ∀ x ∈ xs.toList, Gev
   · rw [sum_sub_one]; ring
   · ring
 
+/-- `esl_gev_logcdf(φ, mu, exp w, α)` in the main branch: `-(1 + αλ(φ-μ))^(-1/α)` -/
+theorem gevLogcdf_r (phi mu w a : ℝ) (h : GevMain phi mu w a) :
+    gevLogcdf phi mu (Real.exp w) a = -Real.exp (-Real.log (gevU phi mu w a) / a) := by
+  obtain ⟨h1, h2⟩ := h
+  unfold gevLogcdf
+  unfold gevU at h2 ⊢
+  have c1 : ¬ |Real.exp w * (phi - mu) * a| < (1e-12 : ℝ) := by rw [mul_comm]; exact h1
+  have c2 : ¬ (1 + a * (Real.exp w * (phi - mu)) ≤ 0) := not_le.2 h2
+  simp only [exp_r, abs_r, ltb_r, leb_r, one_r, zero_r, log1p_r]
+  rw [if_neg c1, if_neg c2]
+
+/-- **`gev_func` on censored data over ℝ** (`z` values censored at `φ`; samples and `φ` in the main branch): the complete-data negative
+    log-likelihood minus `z·log F(φ)`, `log F(φ) = -(1 + αλ(φ-μ))^(-1/α)` — the likelihood of "`z` more observations `≤ φ`" -/
+theorem gevFunc_censored_eq (xs : Array ℝ) (z : Int) (phi mu w a : ℝ) (h : ∀ x ∈ xs.toList, GevMain x mu w a) (hphi : GevMain phi mu w a) :
+    gevFunc xs (some (z, phi)) #[mu, w, a] = gevNll xs.toList mu w a - (z : ℝ) * -Real.exp (-Real.log (gevU phi mu w a) / a) := by
+  have hc := gevFunc_eq xs mu w a h
+  unfold gevFunc at hc ⊢
+  have g0 : (#[mu, w, a] : Array ℝ).getD 0 Num.zero = mu := rfl
+  have g1 : (#[mu, w, a] : Array ℝ).getD 1 Num.zero = w := rfl
+  have g2 : (#[mu, w, a] : Array ℝ).getD 2 Num.zero = a := rfl
+  simp only [g0, g1, g2] at hc ⊢
+  simp only [exp_r, ofInt_r] at hc ⊢
+  rw [gevLogcdf_r phi mu w a hphi, ← hc]
+  ring
+
 end EaselModel.Stats
